@@ -1,5 +1,6 @@
 import Rain.Concat
 import Rain.Lemmas.ConcatIter
+import Rain.Lemmas.ConcatLsm
 /-
 C04 (and C03) for the iterator over the files of one level >= 1, `FilesEntryIterator`: under any
 sequence of cursor movements it is a cursor over the concatenation of its files - what the model of
@@ -28,6 +29,28 @@ theorem C04_level_iterator_is_a_cursor (files : List (List Entry)) (hne : ∀ f 
       (runLevel files ops).current (mkLevel files) = files.flatten[runFlat files.flatten ops]?) :=
   InvL_concl files _ _
     (InvL_run files hne hnb (Rain.Table.Lemmas.sorted_pairwise _ hsorted) ops _ _ (InvL_init files))
+
+/-- **… on every level >= 1 of every state satisfying the LSM invariant**: the files of such a
+level (non-empty, each sorted, each file's largest key below the next file's smallest) meet the
+hypotheses above, so the level iterator the database iterator is built from is a cursor over the
+level's entries - for every reachable state, since the invariant is preserved by every transition
+(`Rain/Props/Lsm.lean`). -/
+theorem C04_level_iterator_on_invariant_states (s : State) (h : Inv s) (j : Nat) (hj : 1 ≤ j)
+    (hne : Rain.Lsm.Lemmas.lv s.levels j ≠ []) (ops : List COp) :
+    let files := (Rain.Lsm.Lemmas.lv s.levels j).map File.entries
+    ((runLevel files ops).valid (mkLevel files) = decide (runFlat files.flatten ops < files.flatten.length)) ∧
+    ((runLevel files ops).valid (mkLevel files) = true →
+      (runLevel files ops).current (mkLevel files) = files.flatten[runFlat files.flatten ops]?) := by
+  intro files
+  have inv := (Rain.Lsm.Lemmas.inv_iff s).mp h
+  have hf : ∀ f ∈ Rain.Lsm.Lemmas.lv s.levels j, Rain.Lsm.Lemmas.FileOk f := fun f hfm => inv.files j f hfm
+  apply C04_level_iterator_is_a_cursor
+  · intro l hl
+    obtain ⟨f, hfm, rfl⟩ := List.mem_map.mp hl
+    exact (hf f hfm).ne
+  · intro e
+    exact hne (List.map_eq_nil_iff.mp e)
+  · exact (Rain.Lsm.Lemmas.sortedE_iff _).mpr (level_entries_sorted _ hf (inv.lvls j hj))
 
 /-- the outer search is the one the code performs: `find_file_with_upper_bound_range` returns the
 number of files whose largest key is below the target (`none` = all of them) -/
